@@ -21,7 +21,7 @@ MC_SC == { [kind |-> "int", re |-> 2, im |-> 0], [kind |-> "int", re |-> -3, im 
            [kind |-> "t0d", re |-> 2, im |-> 0], [kind |-> "t1", re |-> -2, im |-> 0],
            [kind |-> "int", re |-> 0, im |-> 0], [kind |-> "float", re |-> 0, im |-> 0],
            [kind |-> "complex", re |-> 1, im |-> 2],
-           [kind |-> "intbig", re |-> 16777217, im |-> 0] }
+           [kind |-> "intbig", re |-> 16777217, im |-> 0], [kind |-> "tiny", re |-> 3, im |-> 0] }
 MC_OPS == {"add", "sub", "mul", "add_rev", "sub_rev", "mul_rev", "neg", "pos", "full", "ones", "zeros", "eye", "rank1", "meshgrid",
            "add_s", "radd_s", "sub_s", "rsub_s", "mul_s", "rmul_s", "div_s", "kron", "kron_none"}
 MC_BATCH == {}
